@@ -37,3 +37,43 @@ Theorem C20_box_code_path : forall (c n m : nat) (r : re) (B : enfa (list nat)),
   (forall w, Lang B w <-> den r w) /\ is_dfa B.
 Proof. exact box_model_lang. Qed.
 Print Assumptions C20_box_code_path.
+
+(* edge labels of the networkx export: str.split as pyformlang uses it (leftmost non-overlapping cuts, exactly two parts or
+   ValueError) reads back the fields of a label in which each separator occurs at exactly one position *)
+From PFL Require Import Model.GraphLabels Proofs.GraphLabels.
+Theorem C20_split_unique : forall sep a r : str, sep <> nil -> occ sep (a ++ sep ++ r) = 1 -> split sep (a ++ sep ++ r) = a :: r :: nil.
+Proof. exact split_unique. Qed.
+Print Assumptions C20_split_unique.
+
+Theorem C20_pda_label_roundtrip : forall a b c : str,
+  occ sep_arrow (pda_label a b c) = 1 -> occ sep_slash (b ++ sep_slash ++ c) = 1 ->
+  read_pda_label (pda_label a b c) = Some (a, b, c).
+Proof. exact pda_label_roundtrip. Qed.
+Print Assumptions C20_pda_label_roundtrip.
+
+Theorem C20_fst_label_roundtrip : forall a b : str,
+  occ sep_arrow (fst_label a b) = 1 -> read_fst_label (fst_label a b) = Some (a, b).
+Proof. exact fst_label_roundtrip. Qed.
+Print Assumptions C20_fst_label_roundtrip.
+
+(* tie to the source: the separators written and split on, regenerated from pda/pda.py and fst/fst.py on every build *)
+Theorem C20_label_separators_from_source :
+  pda_label_written = (sep_arrow :: sep_slash :: nil) /\ pda_label_splits = (sep_arrow :: sep_slash :: nil) /\
+  fst_label_written = (sep_arrow :: nil) /\ fst_label_splits = (sep_arrow :: nil).
+Proof. exact label_separators_from_source. Qed.
+Print Assumptions C20_label_separators_from_source.
+
+(* conversely, reading is sound: split is inverted by join, so whatever from_networkx reads from a label, the label was exactly
+   the assembly of what it read (no label is read as two different transitions, no character is lost or invented) *)
+From PFL Require Import Proofs.GraphLabelsJoin.
+Theorem C20_join_split : forall sep s : str, sep <> nil -> join sep (split sep s) = s.
+Proof. exact join_split. Qed.
+Print Assumptions C20_join_split.
+
+Theorem C20_read_pda_label_sound : forall l a b c : str, read_pda_label l = Some (a, b, c) -> l = pda_label a b c.
+Proof. exact read_pda_label_sound. Qed.
+Print Assumptions C20_read_pda_label_sound.
+
+Theorem C20_read_fst_label_sound : forall l a b : str, read_fst_label l = Some (a, b) -> l = fst_label a b.
+Proof. exact read_fst_label_sound. Qed.
+Print Assumptions C20_read_fst_label_sound.
